@@ -56,6 +56,55 @@ def _pki(proto, n_inter, role, eku=False):
     return _PKI[k]
 
 
+def _pki_sized(proto, n_inter, role, eku, fit):
+    """credentials whose chain (as configured and sent, root excluded) is exactly TLS_MAX_CERTIFICATES_SIZE - fit bytes of DER: the leaf's
+    subject gets filler OU attributes (each at most 64 characters) until the size is hit.  None when the size cannot be hit."""
+    k = (proto, n_inter, role, eku, "fit", fit)
+    if k in _PKI:
+        return _PKI[k]
+    from vlib.ref import x509 as XR
+    target = 2048 - fit
+    tag = "c08f-%s-%d-%s%s-%d" % (proto, n_inter, role, "-eku" if eku else "", fit)
+    purpose = ["serverAuth"] if role == "server" else ["clientAuth"]
+
+    def build(chars, cn_extra, salt=0):
+        rdns = list(XR.NAME_EXTRA)
+        left = chars
+        while left > 0:
+            c = min(left, 60)
+            rdns.append(("OU", "f" * c)); left -= c
+        # the salt changes the content, hence the signatures (whose DER length varies by a byte or two), without changing any length
+        rdns.append(("CN", tag + " leaf" + "abcdefghijklmnopqrstuvwxyz"[salt % 26] + "abcdefghijklmnopqrstuvwxyz"[(salt // 26) % 26] + "x" * cn_extra))
+        lt = {"subject_rdns": rdns}
+        et = {}
+        if eku:
+            lt["eku"] = purpose; et["eku"] = purpose
+        return pki.Chain(tag, n_inter=n_inter, tlcp=(proto == "tlcp" and role == "server"), role=role, tweaks={"leaf": lt, "enc": et})
+    res = None
+    chars, cnx = 0, 0
+    size = len(build(0, 0).chain_der())
+    if size <= target:
+        for it in range(60):
+            ch = build(chars, cnx, it)
+            size = len(ch.chain_der())
+            delta = target - size
+            if delta == 0:
+                res = ch
+                break
+            if 0 < delta <= 30 - cnx or (delta < 0 and cnx >= -delta):
+                cnx += delta                      # fine: the common name, a byte per character
+            else:
+                # coarse: filler attributes, aimed 15 bytes below the target so that the fine step can finish
+                chars = max(0, chars + delta + cnx - 15)
+                cnx = 0
+    if res is None:
+        _PKI[k] = None
+        return None
+    files = res.write(os.path.join(B.BUILD, "tmp", "c08_%d" % os.getpid(), "fit_%s_%d_%s_%d_%d" % (proto, n_inter, role, int(eku), fit)))
+    _PKI[k] = (res, files)
+    return _PKI[k]
+
+
 _SIZES = st.one_of(st.sampled_from([1, 2, 15, 16, 17, 16383, 16384, 16385, 32768, 50000]), st.integers(1, 50000), st.integers(1, 300))
 _BUFS = st.lists(st.one_of(st.sampled_from([1, 16, 16384, 20000]), st.integers(1, 20000)), min_size=1, max_size=3)
 
@@ -66,6 +115,8 @@ case_s = st.fixed_dictionaries({
     "proto": st.sampled_from(net.PROTOS), "mutual": st.booleans(), "depth": st.integers(1, 3), "cdepth": st.integers(1, 2),
     # without client authentication the client may still be configured with a certificate the server never asks for
     "offer": st.booleans(), "eku": st.booleans(),
+    # the chains as sent fill the peer's 2048-byte certificate buffer exactly (0) or leave a few bytes (a capacity, not a defect, beyond it)
+    "fit": st.sampled_from([None, None, None, None, 0, 1, 2, 3, 5, 8, 9]),
     "phases": st.lists(phase, min_size=1, max_size=4),
     "frag": st.lists(st.one_of(st.sampled_from([1, 5, 100, 1400, 65536]), st.integers(1, 20000)), min_size=0, max_size=3),
     "closer": st.sampled_from(["client", "server"]), "seed": st.integers(0, 1 << 30),
@@ -111,6 +162,16 @@ def session(case, ctx):
     ch, files = _pki(proto, case["depth"] - 1, "server", eku)
     offer = bool(case.get("offer")) and not mutual
     cfiles = _pki(proto, case["cdepth"] - 1, "client", eku)[1] if (mutual or offer) else None
+    fit = case.get("fit")
+    fitted = []
+    if fit is not None:
+        sz = _pki_sized(proto, case["depth"] - 1, "server", eku, fit)
+        if sz is not None:
+            ch, files = sz; fitted.append("server-chain=2048-%d" % fit)
+        if cfiles:
+            sz = _pki_sized(proto, case["cdepth"] - 1, "client", eku, fit)
+            if sz is not None:
+                cfiles = sz[1]; fitted.append("client-chain=2048-%d" % fit)
     frag_list = case["frag"]
     total_bytes = sum(p["n"] + (p["n2"] if p["dir"] == "both" else 0) for p in case["phases"])
     # byte-sized fragments are only affordable for small transfers
@@ -127,7 +188,7 @@ def session(case, ctx):
     cs, ss = _aimed_scripts(proto, case["seed"] % 64) if aim else (b"", b"")
     s = net.Session(ctx.variant, proto, files, client_files=cfiles, mutual=mutual, frag=frag, seed=case["seed"], client_script=cs, server_script=ss,
                     client_offers=offer)
-    classes = [proto, "mutual" if mutual else "server-auth+unused-client-cert" if offer else "server-auth", "depth%d" % case["depth"], "eku" if eku else "no-eku", "frag" if frag_list else "nofrag", "aimed-zero-lead" if aim else "unaimed"]
+    classes = [proto, "mutual" if mutual else "server-auth+unused-client-cert" if offer else "server-auth", "depth%d" % case["depth"], "eku" if eku else "no-eku", "frag" if frag_list else "nofrag", "aimed-zero-lead" if aim else "unaimed"] + fitted
     try:
         rc, rs = s.start()
         if not (rc[1] == "ok" and rs[1] == "ok"):
@@ -144,9 +205,9 @@ def session(case, ctx):
             ctx.note("inconclusive-timeout")
             ctx.case(nontrivial=False, classes=classes + ["timeout"], ident=case)
             return
-        ctx.check(hc[1] == 1 and hs[1] == 1, "%s %s handshake between honest peers failed: client ret=%s server ret=%s (chain depth %d)" %
+        ctx.check(hc[1] == 1 and hs[1] == 1, "%s %s handshake between honest peers failed: client ret=%s server ret=%s (chain depth %d%s)" %
                   (proto, "mutual-auth" if mutual else "server-auth, client configured with an unrequested certificate" if offer else "server-auth",
-                   hc[1], hs[1], case["depth"]),
+                   hc[1], hs[1], case["depth"], "".join("; " + f + " bytes" for f in fitted)),
                   "handshake/%s/%s" % (proto, "mutual" if mutual else "server-auth+unused-client-cert" if offer else "server-auth"))
         # agreement
         pc, ps = s.client.field("protocol"), s.server.field("protocol")
